@@ -335,6 +335,7 @@ impl StorageEngine {
     pub fn delete(&self, db: DatabaseIndex, key: &[u8]) -> Result<bool> {
         let shard = self.get_shard(db, key)?;
         let mut shard_guard = shard.write().unwrap();
+        shard_guard.purge_if_expired(key);
         
         if let Some(stored_value) = shard_guard.data.remove(key) {
             shard_guard.mark_modified(key);
@@ -354,6 +355,7 @@ impl StorageEngine {
     pub fn expire(&self, db: DatabaseIndex, key: &[u8], expires_in: Duration) -> Result<bool> {
         let shard = self.get_shard(db, key)?;
         let mut shard_guard = shard.write().unwrap();
+        shard_guard.purge_if_expired(key);
         
         if let Some(stored_value) = shard_guard.data.get_mut(key) {
             stored_value.metadata.set_expiration(expires_in);
@@ -370,7 +372,8 @@ impl StorageEngine {
     /// Get time to live for a key - optimized read path, no access time tracking
     pub fn ttl(&self, db: DatabaseIndex, key: &[u8]) -> Result<Option<Duration>> {
         let shard = self.get_shard(db, key)?;
-        let shard_guard = shard.read().unwrap(); // Use read lock for TTL check
+        let mut shard_guard = shard.write().unwrap();
+        shard_guard.purge_if_expired(key);
         
         if let Some(stored_value) = shard_guard.data.get(key) {
             if let Some(expires_at) = stored_value.metadata.expires_at {
@@ -397,6 +400,7 @@ impl StorageEngine {
     pub fn incr_by(&self, db: DatabaseIndex, key: Key, increment: i64) -> Result<i64> {
         let shard = self.get_shard(db, &key)?;
         let mut shard_guard = shard.write().unwrap();
+        shard_guard.purge_if_expired(&key);
         
         let new_value = if let Some(stored_value) = shard_guard.data.get_mut(&key) {
             // Try to parse existing value as integer
@@ -446,8 +450,10 @@ impl StorageEngine {
         // Collect keys from all shards
         for shard in &database.shards {
             let shard_guard = shard.read().unwrap();
-            for key in shard_guard.data.keys() {
-                all_keys.push(key.clone());
+            for (key, stored_value) in shard_guard.data.iter() {
+                if !stored_value.is_expired() {
+                    all_keys.push(key.clone());
+                }
             }
         }
         
@@ -493,6 +499,7 @@ impl StorageEngine {
     pub fn xadd(&self, db: DatabaseIndex, key: Key, fields: HashMap<Vec<u8>, Vec<u8>>) -> Result<StreamId> {
         let shard = self.get_shard(db, &key)?;
         let mut shard_guard = shard.write().unwrap();
+        shard_guard.purge_if_expired(&key);
         
         let id = match shard_guard.data.get_mut(&key) {
             Some(stored_value) => {
@@ -532,6 +539,7 @@ impl StorageEngine {
     pub fn xadd_with_id(&self, db: DatabaseIndex, key: Key, id: StreamId, fields: HashMap<Vec<u8>, Vec<u8>>) -> Result<StreamId> {
         let shard = self.get_shard(db, &key)?;
         let mut shard_guard = shard.write().unwrap();
+        shard_guard.purge_if_expired(&key);
         
         let result_id = match shard_guard.data.get_mut(&key) {
             Some(stored_value) => {
@@ -572,7 +580,8 @@ impl StorageEngine {
     /// Get entries from a stream in a range of IDs
     pub fn xrange(&self, db: DatabaseIndex, key: &[u8], start: StreamId, end: StreamId, count: Option<usize>) -> Result<Vec<StreamEntry>> {
         let shard = self.get_shard(db, key)?;
-        let shard_guard = shard.read().unwrap();
+        let mut shard_guard = shard.write().unwrap();
+        shard_guard.purge_if_expired(key);
         
         if let Some(stored_value) = shard_guard.data.get(key) {
             match &stored_value.value {
@@ -590,7 +599,8 @@ impl StorageEngine {
     /// Get entries from a stream in reverse order
     pub fn xrevrange(&self, db: DatabaseIndex, key: &[u8], start: StreamId, end: StreamId, count: Option<usize>) -> Result<Vec<StreamEntry>> {
         let shard = self.get_shard(db, key)?;
-        let shard_guard = shard.read().unwrap();
+        let mut shard_guard = shard.write().unwrap();
+        shard_guard.purge_if_expired(key);
         
         if let Some(stored_value) = shard_guard.data.get(key) {
             match &stored_value.value {
@@ -608,7 +618,8 @@ impl StorageEngine {
     /// Get stream length using lock-free atomic operations
     pub fn xlen(&self, db: DatabaseIndex, key: &[u8]) -> Result<usize> {
         let shard = self.get_shard(db, key)?;
-        let shard_guard = shard.read().unwrap();
+        let mut shard_guard = shard.write().unwrap();
+        shard_guard.purge_if_expired(key);
         
         if let Some(stored_value) = shard_guard.data.get(key) {
             match &stored_value.value {
@@ -632,7 +643,8 @@ impl StorageEngine {
         
         for (key, after_id) in keys_and_ids {
             let shard = self.get_shard(db, key)?;
-            let shard_guard = shard.read().unwrap();
+            let mut shard_guard = shard.write().unwrap();
+            shard_guard.purge_if_expired(key);
             
             if let Some(stored_value) = shard_guard.data.get(key) {
                 match &stored_value.value {
@@ -654,6 +666,7 @@ impl StorageEngine {
     pub fn xtrim(&self, db: DatabaseIndex, key: &[u8], max_len: usize) -> Result<usize> {
         let shard = self.get_shard(db, key)?;
         let mut shard_guard = shard.write().unwrap();
+        shard_guard.purge_if_expired(key);
         
         if let Some(stored_value) = shard_guard.data.get_mut(key) {
             let trimmed = match &mut stored_value.value {
@@ -677,6 +690,7 @@ impl StorageEngine {
     pub fn xdel(&self, db: DatabaseIndex, key: &[u8], ids: Vec<StreamId>) -> Result<usize> {
         let shard = self.get_shard(db, key)?;
         let mut shard_guard = shard.write().unwrap();
+        shard_guard.purge_if_expired(key);
         
         if let Some(stored_value) = shard_guard.data.get_mut(key) {
             let deleted = match &mut stored_value.value {
@@ -757,6 +771,7 @@ impl StorageEngine {
         
         let shard = self.get_shard(db, &key)?;
         let mut shard_guard = shard.write().unwrap();
+        shard_guard.purge_if_expired(&key);
         
         let is_new = if let Some(stored_value) = shard_guard.data.get_mut(&key) {
             match &mut stored_value.value {
@@ -792,6 +807,7 @@ impl StorageEngine {
     pub fn zrem(&self, db: DatabaseIndex, key: &[u8], member: &[u8]) -> Result<bool> {
         let shard = self.get_shard(db, key)?;
         let mut shard_guard = shard.write().unwrap();
+        shard_guard.purge_if_expired(key);
         
         if let Some(stored_value) = shard_guard.data.get_mut(key) {
             let (removed, is_empty) = match &mut stored_value.value {
@@ -823,6 +839,7 @@ impl StorageEngine {
     pub fn zscore(&self, db: DatabaseIndex, key: &[u8], member: &[u8]) -> Result<Option<f64>> {
         let shard = self.get_shard(db, key)?;
         let mut shard_guard = shard.write().unwrap();
+        shard_guard.purge_if_expired(key);
         
         if let Some(stored_value) = shard_guard.data.get_mut(key) {
             let score = match &stored_value.value {
@@ -840,6 +857,7 @@ impl StorageEngine {
     pub fn zrank(&self, db: DatabaseIndex, key: &[u8], member: &[u8], reverse: bool) -> Result<Option<usize>> {
         let shard = self.get_shard(db, key)?;
         let mut shard_guard = shard.write().unwrap();
+        shard_guard.purge_if_expired(key);
         
         if let Some(stored_value) = shard_guard.data.get_mut(key) {
             let result = match &stored_value.value {
@@ -870,6 +888,7 @@ impl StorageEngine {
         -> Result<Vec<(Vec<u8>, f64)>> {
         let shard = self.get_shard(db, key)?;
         let mut shard_guard = shard.write().unwrap();
+        shard_guard.purge_if_expired(key);
         
         if let Some(stored_value) = shard_guard.data.get_mut(key) {
             let result = match &stored_value.value {
@@ -924,6 +943,7 @@ impl StorageEngine {
         -> Result<Vec<(Vec<u8>, f64)>> {
         let shard = self.get_shard(db, key)?;
         let mut shard_guard = shard.write().unwrap();
+        shard_guard.purge_if_expired(key);
         
         if let Some(stored_value) = shard_guard.data.get_mut(key) {
             let result = match &stored_value.value {
@@ -961,6 +981,7 @@ impl StorageEngine {
         
         let shard = self.get_shard(db, &key)?;
         let mut shard_guard = shard.write().unwrap();
+        shard_guard.purge_if_expired(&key);
         
         let new_score = if let Some(stored_value) = shard_guard.data.get_mut(&key) {
             match &mut stored_value.value {
@@ -1009,6 +1030,7 @@ impl StorageEngine {
     pub fn zcard(&self, db: DatabaseIndex, key: &[u8]) -> Result<usize> {
         let shard = self.get_shard(db, key)?;
         let mut shard_guard = shard.write().unwrap();
+        shard_guard.purge_if_expired(key);
         
         if let Some(stored_value) = shard_guard.data.get_mut(key) {
             let cardinality = match &stored_value.value {
@@ -1025,6 +1047,7 @@ impl StorageEngine {
     pub fn lpush(&self, db: DatabaseIndex, key: Key, elements: Vec<Vec<u8>>) -> Result<usize> {
         let shard = self.get_shard(db, &key)?;
         let mut shard_guard = shard.write().unwrap();
+        shard_guard.purge_if_expired(&key);
         
         let list_len = if let Some(stored_value) = shard_guard.data.get_mut(&key) {
             match &mut stored_value.value {
@@ -1059,6 +1082,7 @@ impl StorageEngine {
     pub fn rpush(&self, db: DatabaseIndex, key: Key, elements: Vec<Vec<u8>>) -> Result<usize> {
         let shard = self.get_shard(db, &key)?;
         let mut shard_guard = shard.write().unwrap();
+        shard_guard.purge_if_expired(&key);
         
         let list_len = if let Some(stored_value) = shard_guard.data.get_mut(&key) {
             match &mut stored_value.value {
@@ -1093,6 +1117,7 @@ impl StorageEngine {
     pub fn lpop(&self, db: DatabaseIndex, key: &[u8]) -> Result<Option<Vec<u8>>> {
         let shard = self.get_shard(db, key)?;
         let mut shard_guard = shard.write().unwrap();
+        shard_guard.purge_if_expired(key);
         
         if let Some(stored_value) = shard_guard.data.get_mut(key) {
             match &mut stored_value.value {
@@ -1122,6 +1147,7 @@ impl StorageEngine {
     pub fn rpop(&self, db: DatabaseIndex, key: &[u8]) -> Result<Option<Vec<u8>>> {
         let shard = self.get_shard(db, key)?;
         let mut shard_guard = shard.write().unwrap();
+        shard_guard.purge_if_expired(key);
         
         if let Some(stored_value) = shard_guard.data.get_mut(key) {
             match &mut stored_value.value {
@@ -1151,6 +1177,7 @@ impl StorageEngine {
     pub fn llen(&self, db: DatabaseIndex, key: &[u8]) -> Result<usize> {
         let shard = self.get_shard(db, key)?;
         let mut shard_guard = shard.write().unwrap();
+        shard_guard.purge_if_expired(key);
         
         if let Some(stored_value) = shard_guard.data.get_mut(key) {
             let len = match &stored_value.value {
@@ -1167,6 +1194,7 @@ impl StorageEngine {
     pub fn lrange(&self, db: DatabaseIndex, key: &[u8], start: isize, stop: isize) -> Result<Vec<Vec<u8>>> {
         let shard = self.get_shard(db, key)?;
         let mut shard_guard = shard.write().unwrap();
+        shard_guard.purge_if_expired(key);
         
         if let Some(stored_value) = shard_guard.data.get_mut(key) {
             let result = match &stored_value.value {
@@ -1200,6 +1228,7 @@ impl StorageEngine {
     pub fn lindex(&self, db: DatabaseIndex, key: &[u8], index: isize) -> Result<Option<Vec<u8>>> {
         let shard = self.get_shard(db, key)?;
         let mut shard_guard = shard.write().unwrap();
+        shard_guard.purge_if_expired(key);
         
         if let Some(stored_value) = shard_guard.data.get_mut(key) {
             let result = match &stored_value.value {
@@ -1225,6 +1254,7 @@ impl StorageEngine {
     pub fn lset(&self, db: DatabaseIndex, key: Key, index: isize, value: Vec<u8>) -> Result<()> {
         let shard = self.get_shard(db, &key)?;
         let mut shard_guard = shard.write().unwrap();
+        shard_guard.purge_if_expired(&key);
         
         if let Some(stored_value) = shard_guard.data.get_mut(&key) {
             match &mut stored_value.value {
@@ -1251,6 +1281,7 @@ impl StorageEngine {
     pub fn ltrim(&self, db: DatabaseIndex, key: Key, start: isize, stop: isize) -> Result<()> {
         let shard = self.get_shard(db, &key)?;
         let mut shard_guard = shard.write().unwrap();
+        shard_guard.purge_if_expired(&key);
         
         if let Some(stored_value) = shard_guard.data.get_mut(&key) {
             match &mut stored_value.value {
@@ -1291,6 +1322,7 @@ impl StorageEngine {
     pub fn lrem(&self, db: DatabaseIndex, key: Key, count: isize, element: Vec<u8>) -> Result<usize> {
         let shard = self.get_shard(db, &key)?;
         let mut shard_guard = shard.write().unwrap();
+        shard_guard.purge_if_expired(&key);
         
         if let Some(stored_value) = shard_guard.data.get_mut(&key) {
             match &mut stored_value.value {
@@ -1361,6 +1393,7 @@ impl StorageEngine {
     pub fn sadd(&self, db: DatabaseIndex, key: Key, members: Vec<Vec<u8>>) -> Result<usize> {
         let shard = self.get_shard(db, &key)?;
         let mut shard_guard = shard.write().unwrap();
+        shard_guard.purge_if_expired(&key);
         
         let added = if let Some(stored_value) = shard_guard.data.get_mut(&key) {
             match &mut stored_value.value {
@@ -1401,6 +1434,7 @@ impl StorageEngine {
     pub fn srem<'a, T: AsRef<[u8]>>(&self, db: DatabaseIndex, key: &[u8], members: &[T]) -> Result<usize> {
         let shard = self.get_shard(db, key)?;
         let mut shard_guard = shard.write().unwrap();
+        shard_guard.purge_if_expired(key);
         
         if let Some(stored_value) = shard_guard.data.get_mut(key) {
             match &mut stored_value.value {
@@ -1435,6 +1469,7 @@ impl StorageEngine {
     pub fn smembers(&self, db: DatabaseIndex, key: &[u8]) -> Result<Vec<Vec<u8>>> {
         let shard = self.get_shard(db, key)?;
         let mut shard_guard = shard.write().unwrap();
+        shard_guard.purge_if_expired(key);
         
         if let Some(stored_value) = shard_guard.data.get_mut(key) {
             let members = match &stored_value.value {
@@ -1451,6 +1486,7 @@ impl StorageEngine {
     pub fn sismember(&self, db: DatabaseIndex, key: &[u8], member: &[u8]) -> Result<bool> {
         let shard = self.get_shard(db, key)?;
         let mut shard_guard = shard.write().unwrap();
+        shard_guard.purge_if_expired(key);
         
         if let Some(stored_value) = shard_guard.data.get_mut(key) {
             let is_member = match &stored_value.value {
@@ -1467,6 +1503,7 @@ impl StorageEngine {
     pub fn scard(&self, db: DatabaseIndex, key: &[u8]) -> Result<usize> {
         let shard = self.get_shard(db, key)?;
         let mut shard_guard = shard.write().unwrap();
+        shard_guard.purge_if_expired(key);
         
         if let Some(stored_value) = shard_guard.data.get_mut(key) {
             let len = match &stored_value.value {
@@ -1491,6 +1528,7 @@ impl StorageEngine {
             let key = key_ref.as_ref();
             let shard = self.get_shard(db, key)?;
             let mut shard_guard = shard.write().unwrap();
+            shard_guard.purge_if_expired(key);
             
             if let Some(stored_value) = shard_guard.data.get_mut(key) {
                 match &stored_value.value {
@@ -1517,6 +1555,7 @@ impl StorageEngine {
         let first_key = keys[0].as_ref();
         let shard = self.get_shard(db, first_key)?;
         let mut shard_guard = shard.write().unwrap();
+        shard_guard.purge_if_expired(first_key);
         
         let result: HashSet<Vec<u8>> = if let Some(stored_value) = shard_guard.data.get_mut(first_key) {
             // NO touch() call - no access time tracking overhead
@@ -1535,6 +1574,7 @@ impl StorageEngine {
             let key = keys[k].as_ref();
             let shard = self.get_shard(db, key)?;
             let mut shard_guard = shard.write().unwrap();
+            shard_guard.purge_if_expired(key);
             
             if let Some(stored_value) = shard_guard.data.get_mut(key) {
                 // NO touch() call - no access time tracking overhead
@@ -1561,6 +1601,7 @@ impl StorageEngine {
         let first_key = keys[0].as_ref();
         let shard = self.get_shard(db, first_key)?;
         let mut shard_guard = shard.write().unwrap();
+        shard_guard.purge_if_expired(first_key);
         
         let result: HashSet<Vec<u8>> = if let Some(stored_value) = shard_guard.data.get_mut(first_key) {
             // NO touch() call - no access time tracking overhead
@@ -1579,6 +1620,7 @@ impl StorageEngine {
             let key = keys[k].as_ref();
             let shard = self.get_shard(db, key)?;
             let mut shard_guard = shard.write().unwrap();
+            shard_guard.purge_if_expired(key);
             
             if let Some(stored_value) = shard_guard.data.get_mut(key) {
                 // NO touch() call - no access time tracking overhead
@@ -1599,6 +1641,7 @@ impl StorageEngine {
     pub fn srandmember(&self, db: DatabaseIndex, key: &[u8], count: i64) -> Result<Vec<Vec<u8>>> {
         let shard = self.get_shard(db, key)?;
         let mut shard_guard = shard.write().unwrap();
+        shard_guard.purge_if_expired(key);
         
         if let Some(stored_value) = shard_guard.data.get_mut(key) {
             let result = match &stored_value.value {
@@ -1639,6 +1682,7 @@ impl StorageEngine {
     pub fn spop(&self, db: DatabaseIndex, key: Key, count: usize) -> Result<Vec<Vec<u8>>> {
         let shard = self.get_shard(db, &key)?;
         let mut shard_guard = shard.write().unwrap();
+        shard_guard.purge_if_expired(&key);
         
         if let Some(stored_value) = shard_guard.data.get_mut(&key) {
             match &mut stored_value.value {
@@ -1683,6 +1727,7 @@ impl StorageEngine {
     pub fn hset(&self, db: DatabaseIndex, key: Key, field_values: Vec<(Vec<u8>, Vec<u8>)>) -> Result<usize> {
         let shard = self.get_shard(db, &key)?;
         let mut shard_guard = shard.write().unwrap();
+        shard_guard.purge_if_expired(&key);
         
         let fields_added = if let Some(stored_value) = shard_guard.data.get_mut(&key) {
             match &mut stored_value.value {
@@ -1721,6 +1766,7 @@ impl StorageEngine {
     pub fn hget(&self, db: DatabaseIndex, key: &[u8], field: &[u8]) -> Result<Option<Vec<u8>>> {
         let shard = self.get_shard(db, key)?;
         let mut shard_guard = shard.write().unwrap();
+        shard_guard.purge_if_expired(key);
         
         if let Some(stored_value) = shard_guard.data.get_mut(key) {
             let value = match &stored_value.value {
@@ -1737,6 +1783,7 @@ impl StorageEngine {
     pub fn hmget<'a, T: AsRef<[u8]>>(&self, db: DatabaseIndex, key: &[u8], fields: &[T]) -> Result<Vec<Option<Vec<u8>>>> {
         let shard = self.get_shard(db, key)?;
         let mut shard_guard = shard.write().unwrap();
+        shard_guard.purge_if_expired(key);
         
         if let Some(stored_value) = shard_guard.data.get_mut(key) {
             // NO touch() call - no access time tracking overhead
@@ -1752,6 +1799,7 @@ impl StorageEngine {
     pub fn hgetall(&self, db: DatabaseIndex, key: &[u8]) -> Result<Vec<(Vec<u8>, Vec<u8>)>> {
         let shard = self.get_shard(db, key)?;
         let mut shard_guard = shard.write().unwrap();
+        shard_guard.purge_if_expired(key);
         
         if let Some(stored_value) = shard_guard.data.get_mut(key) {
             let pairs = match &stored_value.value {
@@ -1768,6 +1816,7 @@ impl StorageEngine {
     pub fn hdel<'a, T: AsRef<[u8]>>(&self, db: DatabaseIndex, key: Key, fields: &[T]) -> Result<usize> {
         let shard = self.get_shard(db, &key)?;
         let mut shard_guard = shard.write().unwrap();
+        shard_guard.purge_if_expired(&key);
         
         if let Some(stored_value) = shard_guard.data.get_mut(&key) {
             match &mut stored_value.value {
@@ -1798,6 +1847,7 @@ impl StorageEngine {
     pub fn hlen(&self, db: DatabaseIndex, key: &[u8]) -> Result<usize> {
         let shard = self.get_shard(db, key)?;
         let mut shard_guard = shard.write().unwrap();
+        shard_guard.purge_if_expired(key);
         
         if let Some(stored_value) = shard_guard.data.get_mut(key) {
             let len = match &stored_value.value {
@@ -1814,6 +1864,7 @@ impl StorageEngine {
     pub fn hexists(&self, db: DatabaseIndex, key: &[u8], field: &[u8]) -> Result<bool> {
         let shard = self.get_shard(db, key)?;
         let mut shard_guard = shard.write().unwrap();
+        shard_guard.purge_if_expired(key);
         
         if let Some(stored_value) = shard_guard.data.get_mut(key) {
             let exists = match &stored_value.value {
@@ -1830,6 +1881,7 @@ impl StorageEngine {
     pub fn hkeys(&self, db: DatabaseIndex, key: &[u8]) -> Result<Vec<Vec<u8>>> {
         let shard = self.get_shard(db, key)?;
         let mut shard_guard = shard.write().unwrap();
+        shard_guard.purge_if_expired(key);
         
         if let Some(stored_value) = shard_guard.data.get_mut(key) {
             let keys = match &stored_value.value {
@@ -1846,6 +1898,7 @@ impl StorageEngine {
     pub fn hvals(&self, db: DatabaseIndex, key: &[u8]) -> Result<Vec<Vec<u8>>> {
         let shard = self.get_shard(db, key)?;
         let mut shard_guard = shard.write().unwrap();
+        shard_guard.purge_if_expired(key);
         
         if let Some(stored_value) = shard_guard.data.get_mut(key) {
             let values = match &stored_value.value {
@@ -1862,6 +1915,7 @@ impl StorageEngine {
     pub fn hincrby(&self, db: DatabaseIndex, key: Key, field: Vec<u8>, increment: i64) -> Result<i64> {
         let shard = self.get_shard(db, &key)?;
         let mut shard_guard = shard.write().unwrap();
+        shard_guard.purge_if_expired(&key);
         
         let new_value = if let Some(stored_value) = shard_guard.data.get_mut(&key) {
             match &mut stored_value.value {
@@ -1907,6 +1961,7 @@ impl StorageEngine {
     pub fn append(&self, db: DatabaseIndex, key: Key, value: Vec<u8>) -> Result<usize> {
         let shard = self.get_shard(db, &key)?;
         let mut shard_guard = shard.write().unwrap();
+        shard_guard.purge_if_expired(&key);
         
         let new_len = if let Some(stored_value) = shard_guard.data.get_mut(&key) {
             match &mut stored_value.value {
@@ -1933,7 +1988,8 @@ impl StorageEngine {
     
     pub fn strlen(&self, db: DatabaseIndex, key: &[u8]) -> Result<usize> {
         let shard = self.get_shard(db, key)?;
-        let shard_guard = shard.read().unwrap(); // Use read lock for size check
+        let mut shard_guard = shard.write().unwrap();
+        shard_guard.purge_if_expired(key);
         
         if let Some(stored_value) = shard_guard.data.get(key) {
             match &stored_value.value {
@@ -1948,6 +2004,7 @@ impl StorageEngine {
     pub fn getrange(&self, db: DatabaseIndex, key: &[u8], start: isize, end: isize) -> Result<Vec<u8>> {
         let shard = self.get_shard(db, key)?;
         let mut shard_guard = shard.write().unwrap();
+        shard_guard.purge_if_expired(key);
         
         if let Some(stored_value) = shard_guard.data.get_mut(key) {
             let substring = match &stored_value.value {
@@ -1996,6 +2053,7 @@ impl StorageEngine {
         
         let shard = self.get_shard(db, &key)?;
         let mut shard_guard = shard.write().unwrap();
+        shard_guard.purge_if_expired(&key);
         
         let new_len = if let Some(stored_value) = shard_guard.data.get_mut(&key) {
             match &mut stored_value.value {
@@ -2031,7 +2089,8 @@ impl StorageEngine {
     
     pub fn key_type(&self, db: DatabaseIndex, key: &[u8]) -> Result<String> {
         let shard = self.get_shard(db, key)?;
-        let shard_guard = shard.read().unwrap(); // Use read lock for type check
+        let mut shard_guard = shard.write().unwrap();
+        shard_guard.purge_if_expired(key);
         
         if let Some(stored_value) = shard_guard.data.get(key) {
             let type_name = match &stored_value.value {
@@ -2056,6 +2115,7 @@ impl StorageEngine {
         if Arc::ptr_eq(old_shard, new_shard) {
             // Same shard - simple case
             let mut shard_guard = old_shard.write().unwrap();
+            shard_guard.purge_if_expired(old_key);
             if let Some(stored_value) = shard_guard.data.remove(old_key) {
                 // The TTL travels with the value: move the deadline index entry as well
                 shard_guard.expiring_keys.remove(old_key);
@@ -2087,6 +2147,7 @@ impl StorageEngine {
                 (&mut guard2, &mut guard1)
             };
             
+            old_guard.purge_if_expired(old_key);
             // Move the value between shards
             if let Some(stored_value) = old_guard.data.remove(old_key) {
                 // The TTL travels with the value: move the deadline index entry as well
@@ -2114,7 +2175,10 @@ impl StorageEngine {
         // Collect keys from all shards
         for shard in &database.shards {
             let shard_guard = shard.read().unwrap();
-            for key in shard_guard.data.keys() {
+            for (key, stored_value) in shard_guard.data.iter() {
+                if stored_value.is_expired() {
+                    continue;
+                }
                 let key_str = String::from_utf8_lossy(key);
                 if pattern_matches(&pattern_str, &key_str) {
                     matching_keys.push(key.clone());
@@ -2148,6 +2212,7 @@ impl StorageEngine {
     pub fn persist(&self, db: DatabaseIndex, key: &[u8]) -> Result<bool> {
         let shard = self.get_shard(db, key)?;
         let mut shard_guard = shard.write().unwrap();
+        shard_guard.purge_if_expired(key);
         
         if let Some(stored_value) = shard_guard.data.get_mut(key) {
             if stored_value.metadata.expires_at.is_some() {
@@ -2591,6 +2656,21 @@ impl DatabaseShard {
     /// Mark specific key as modified
     fn mark_modified(&self, key: &[u8]) {
         self.watch_tracker.mark_key_modified(key);
+    }
+    
+    /// Lazy expiry: drop `key` if its deadline has passed, so that every command sees it as absent
+    /// whether or not the background sweeper has run yet. Returns true if the key was removed.
+    fn purge_if_expired(&mut self, key: &[u8]) -> bool {
+        let expired = match self.data.get(key) {
+            Some(stored_value) => stored_value.is_expired(),
+            None => false,
+        };
+        if expired {
+            self.data.remove(key);
+            self.expiring_keys.remove(key);
+            self.mark_modified(key);
+        }
+        expired
     }
     
     /// Get current modification counter for shard
